@@ -132,6 +132,22 @@ func runC10(c *fw.Case) (o fw.Outcome) {
 		o.Input = fmt.Sprintf("NIA%d/NEA%d kint=%x kenc=%x history(%d msgs): %v", iAlg, cAlg, ue.KnasInt, ue.KnasEnc, n, trace)
 	}()
 	for s := 0; s < steps; s++ {
+		// uplink traffic of the same UE in between (one history in two): sending under the current context (no new
+		// context taken into use) leaves the downlink estimate alone
+		if c.Idx%4 >= 2 && s > 0 && r.Intn(6) == 0 {
+			before := ue.DLCount.Get()
+			up, ukind := plainUplink(r)
+			func() {
+				defer func() { recover() }() // what the encoder produces is C06's business
+				tglib.EncodeNasPduWithSecurity(ue, up, uint8(1+r.Intn(2)), true, false)
+			}()
+			o.Count("uplink_messages_interleaved", 1)
+			trace = append(trace, "->"+ukind)
+			if ue.DLCount.Get() != before {
+				o.Fail("dl-count-changed-by-uplink", "message %d: sending an uplink %s under the current context moved the downlink COUNT estimate from %#x to %#x", s, ukind, before, ue.DLCount.Get())
+				return
+			}
+		}
 		plain, kind := plainDownlink(r)
 		// history profile (by case index): how often the AMF takes a new context into use. Rare resets let the SQN wrap
 		// (overflow > 0) before the next Security Mode Command arrives.
